@@ -36,8 +36,17 @@ def get_finder_for(search_sid, config=None):
     return finder or None
 
 
+_default_getter: list = []
+
+
+def _get_default_getter():
+    if not _default_getter:
+        from spil import GetFromPaths
+        _default_getter.append(GetFromPaths())
+    return _default_getter[0]
+
+
 def get_getter_for(sid, attribute=None, config=None):
-    from spil import GetFromPaths
     from hamlet_plugins.next_get import NextGetter   # the repository's plugin (spil_hamlet_conf is on the path)
 
     attribute_getters = {
@@ -51,7 +60,7 @@ def get_getter_for(sid, attribute=None, config=None):
         'p': None,
         'a': None,
         's': None,
-        'default': GetFromPaths(),
+        'default': _get_default_getter(),
     }
     if sid.type in getters_by_type:
         return getters_by_type.get(sid.type)
